@@ -1192,6 +1192,21 @@ def check_const_table(ctx: Ctx):
                     continue
                 if any(isinstance(x, ast.Call) and isinstance(x.func, ast.Attribute) and x.func.attr == "get_constant" for x in ast.walk(v)) or (q.names_in(v) & set(gets)):
                     wrap.append((m, c))
+    # the environment is one flat table shared by the function and every function defined inside it: an entry may be
+    # re-bound, never forgotten (forgetting `a` on leaving an inner `def f(a)` forgets the outer `a` too, and a later
+    # `a = f(a)` is then no longer recognised as self-referencing)
+    forget = []
+    for m in rw.methods.values():
+        for c in q.calls(m.node):
+            if isinstance(c.func, ast.Attribute) and ((norm(c.func.value) == "self.env" and c.func.attr == "remove") or (norm(c.func.value) in ("self.env.types", "self.env.constants") and c.func.attr in ("pop", "clear", "popitem") and norm(c.func.value) == "self.env.types")):
+                forget.append((m, c))
+        for n in ast.walk(m.node):
+            if isinstance(n, ast.Delete) and any("self.env" in norm(t) for t in n.targets):
+                forget.append((m, n))
+    for m, c in forget:
+        ctx.fail("DP-STALE", m, "the rewriter never forgets a name", f"`{norm(c)[:70]}` removes a name from the environment, which is one flat table shared with the enclosing function: the enclosing function's variable of the same name is forgotten too, so a later self-referencing assignment to it (`a = f(a)`) is not split through a temporary and its bits are updated in place, each from already-updated ones", c)
+    if not forget:
+        ctx.ok("DP-STALE", rw.methods["visit_FunctionDef"] if "visit_FunctionDef" in rw.methods else None, "the rewriter never forgets a name", f"{len(rw.methods)} methods scanned", construct=REWRITER)
     vi = rw.methods.get("visit_If")
     if vi is None:
         raise AnchorError(REWRITER + ".visit_If", "not found")
